@@ -97,6 +97,10 @@ def corpus():
         cs.append((f21, v))
     cs.append((["DCompound", [["DInt"], ["DCompound", [["DAdapt", 100, 2, False, ["PNone"]], ["DCast", "CTStr"]]]]], ["PFloat", F(0.5)]))
     cs.append((["DCompound", [["DAdapt", 100, 2, True, ["PNone"]], ["DInt"]]], S("a")))
+    two_tuples = ["DCompound", [["DTuple", [["DFloat"], ["DStr"]]], ["DTuple", [["DInt"], ["DInt"]]]]]
+    for v in (["PTuple", [["PInt", 1], ["PInt", 2]]], ["PTuple", [["PBool", False], ["PInt", 2]]],
+              ["PTuple", [["PInt", 1], S("a")]], ["PTupleSub", [["PInt", 1], ["PInt", 2]]]):
+        cs.append((two_tuples, v))
     two_enums = ["DCompound", [["DEnum", [S("auto"), S("fill")]], ["DFloat"], ["DEnum", [["PInt", 1], ["PInt", 2], ["PInt", 5]]]]]
     for v in (["PInt", 1], ["PInt", 5], S("fill"), ["PFloat", F(2.0)], ["PBool", True]):                  # enum, converter, enum
         cs.append((two_enums, v))
@@ -157,6 +161,11 @@ def gen_cases(ctx, rnd):
         ["DCompound", [["DRangeI", 0, 5, 0], ["DFloat"]]], ["DCompound", [["DType", 100, True], ["DInstance", 100, False, False]]],
         ["DCompound", [["DSelf", False], ["DBool"], ["DPrefixList", [pv.W("yes"), pv.W("no")]]]],
         ["DCompound", [["DCast", "CTFloat"], ["DInt"]]], ["DCompound", [["DCast", "CTBool"], ["DStr"]]],
+        # two Tuple alternatives: the first converts an item and then rejects, the second must see the original value
+        ["DCompound", [["DTuple", [["DFloat"], ["DStr"]]], ["DTuple", [["DInt"], ["DInt"]]]]],
+        ["DCompound", [["DTuple", [["DCast", "CTStr"], ["DBool"]]], ["DTuple", [["DInt"], ["DInt"]]], ["DTuple", [["DAny"], ["DAny"]]]]],
+        ["DCompound", [["DTuple", [["DComplex"], ["DInt"], ["DStr"]]], ["DTuple", [["DBool"], ["DInt"], ["DInt"]]]]],
+        ["DTuple", [["DCompound", [["DTuple", [["DFloat"], ["DStr"]]], ["DTuple", [["DInt"], ["DInt"]]]]], ["DFloat"]]],
         # two enumeration-like alternatives with a converting alternative between them
         ["DCompound", [["DEnum", [pv.S("auto"), pv.S("fill")]], ["DFloat"], ["DEnum", [["PInt", 1], ["PInt", 2], ["PInt", 5]]]]],
         ["DCompound", [["DEnum", [pv.S("auto"), pv.S("none")]], ["DCast", "CTStr"], ["DEnum", [["PNone"]]]]],
@@ -225,7 +234,13 @@ def run(ctx):
         ctx.fail("harness/env", "class table could not be computed: " + err[-400:], dict(error=err[-2000:]), no_input=True)
     else:
         header = pv.header_with_sub(IMPORTS, envd["sub"])
-        single.run(ctx, "c03_driver.py", cases, to_term, header, CASE_T, key_fn, describe, nontrivial, RELATION,
+        obs = single.run(ctx, "c03_driver.py", cases, to_term, header, CASE_T, key_fn, describe, nontrivial, RELATION,
                    check_obs=check_obs, sanitize=(ctx.tier == "thorough"), shard=550)
+    for c, o in zip(cases, obs or []):          # a validator that changes its argument: a failing input of its own
+        if o.get("mut"):
+            ctx.fail("input-mutated/%s/%s" % (pv.shape(c["d"]), pv.vshape(c["v"])),
+                     "trait %s: the value %s was MUTATED by %s (it re-encodes differently after the call)" % (
+                         pv.shape(c["d"]), json.dumps(c["v"])[:120], ", ".join(o["mut"])),
+                     dict(kind="law-failure-on-implementation", clause="input-mutated", case=c, impl_obs=o))
     t2.gate(ctx, "C03")
     proof_gate(ctx, ok, log, PROPS)
